@@ -84,7 +84,22 @@ def unbounded(g):
     return Spec(P, q, 0.0, [], [], [], lb, ub, [], [])
 
 
-FAMILIES = {"convex_qp": convex_qp, "nonlinear": nonlinear, "infeasible": infeasible, "unbounded": unbounded}
+def unbounded_cons(g):
+    """objective unbounded below along x0 on the feasible set, with an equality row that is far from being satisfied at
+    the start: the objective limit is crossed long before the row is met"""
+    r = g.rng
+    n = r.randint(2, 3)
+    P = [[0.0] * n for _ in range(n)]
+    for j in range(1, n):
+        P[j][j] = 1.0
+    q = [1.0] + [0.0] * (n - 1)
+    K = float(r.choice([20, 100, 400]))
+    B = [[1.0, 1.0] + [0.0] * (n - 2)]
+    return Spec(P, q, 0.0, [[[0.0] * n for _ in range(n)]], B, [0.0], [-INF] * n, [INF] * n, [-K], [-K])
+
+
+FAMILIES = {"convex_qp": convex_qp, "nonlinear": nonlinear, "infeasible": infeasible, "unbounded": unbounded,
+            "unbounded_cons": unbounded_cons}
 
 
 # ------------------------------------------------------------------------------------------------ configurations
@@ -136,6 +151,19 @@ def make_params(cfg, sc, spec, x0, y0):
     return PM.Params(**kw), scal
 
 
+def params_snapshot(params):
+    """value of every field of a Params object (arrays by content), to see whether a solve wrote into it"""
+    snap = {}
+    for k, v in sorted(vars(params).items()):
+        if isinstance(v, np.ndarray):
+            snap[k] = ("array", v.dtype.str, v.shape, v.tobytes())
+        elif hasattr(v, "var_weights"):
+            snap[k] = ("scaling", np.asarray(v.var_weights).tobytes(), np.asarray(v.cons_weights).tobytes(), int(v.obj_weight))
+        else:
+            snap[k] = repr(v)
+    return snap
+
+
 # ------------------------------------------------------------------------------------------------ one recorded solve
 class Clock:
     """virtual clock: 1, 2, 3, ...; `deadline_at` = index of the read from which the time jumps far ahead"""
@@ -159,7 +187,23 @@ def innermost_frame(tb):
     return fr
 
 
+RUN_BOX = 120      # seconds; a single campaign solve takes well under two
+
+
 def run(case, solver_obj=None, keep=False):
+    from .timebox import Hang, TimeBox, time_box
+    own = [False]
+    try:
+        with time_box(RUN_BOX) as mine:
+            own[0] = mine
+            return _run(case, solver_obj, keep)
+    except TimeBox:
+        if not own[0]:
+            raise               # an enclosing, shorter box (integration solver campaigns) is in charge
+        raise Hang("Solver.solve (campaign)", {k: v for k, v in case.items() if not k.startswith("_")}, RUN_BOX)
+
+
+def _run(case, solver_obj=None, keep=False):
     """Runs one solve; returns a JSON-able record. case keys: spec, sc, cfg, x0, y0, prob (fmt, policy), obs (log_level,
     display_interval, callbacks), faults (see FaultyProblem / FaultyLinear), deadline_at, integration (bool)."""
     import pygradflow.timer as T
@@ -213,7 +257,7 @@ def run(case, solver_obj=None, keep=False):
         LS.linear_solver = FaultyLinear(old_ls, faults["linear"])
     logger.setLevel(getattr(logging, obs.get("log_level", "ERROR")))
     handler = None
-    if obs.get("log_level") in ("DEBUG", "INFO"):
+    if obs.get("log_level") in ("DEBUG", "INFO", "WARNING"):
         handler = logging.NullHandler()
         logger.addHandler(handler)
     try:
@@ -251,7 +295,14 @@ def run(case, solver_obj=None, keep=False):
                                           lambda it, nx, acc: ann.append({"z": it.z.tolist(), "zn": nx.z.tolist(), "acc": bool(acc),
                                                                           "rho": float(getattr(solver, "rho", 0.0))}))
             out["constructed"] = True
-            res = solver.solve(x0, y0)
+            pbefore = params_snapshot(params)
+            dbefore = params_snapshot(type(params)())
+            try:
+                res = solver.solve(x0, y0)
+            finally:
+                pafter, dafter = params_snapshot(params), params_snapshot(type(params)())
+                out["params_mutated"] = sorted(k for k in pbefore if pbefore[k] != pafter.get(k)) + \
+                    sorted("default." + k for k in dbefore if dbefore[k] != dafter.get(k))
             out.update(kind="status", status=res.status.name, x=[float(v) for v in res.x], y=[float(v) for v in res.y],
                        d=[float(v) for v in res.d], iters=int(res.iterations), nacc=int(res.num_accepted_steps),
                        dist_factor=float(res.dist_factor) if res.dist_factor is not None else None,
@@ -443,16 +494,18 @@ def oracle_C01(case, rec, opt_tol=1e-6, active_tol=1e-8):
     return None
 
 
-def oracle_C02(case, rec, opt_tol=1e-6, infeas_tol=1e-8, active_tol=1e-8, obj_lower=-1e10):
+def oracle_C02(case, rec, opt_tol=1e-6, infeas_tol=1e-8, active_tol=1e-8, obj_lower=-1e10, counters=True):
     if rec.get("kind") != "status":
         return None
     spec, vw, cw, ow = user_scaling(case, rec)
+    obj_lower = case["cfg"].get("obj_lower_limit", obj_lower)
     il = case["cfg"].get("iteration_limit")
-    if il is not None and rec["iters"] > il:
-        return "iteration_limit: %d iterations performed with limit %d" % (rec["iters"], il)
     st = rec["status"]
-    if (st == "IterationLimit") != (il is not None and rec["iters"] == il):
-        return "iteration_limit: status %s with %d iterations, limit %r" % (st, rec["iters"], il)
+    if counters:
+        if il is not None and rec["iters"] > il:
+            return "iteration_limit: %d iterations performed with limit %d" % (rec["iters"], il)
+        if (st == "IterationLimit") != (il is not None and rec["iters"] == il):
+            return "iteration_limit: status %s with %d iterations, limit %r" % (st, rec["iters"], il)
     ref = QuadProblem(spec)
     x = np.array(rec["x"])
     n, m = spec.n, spec.m
